@@ -60,10 +60,14 @@ type Enc struct {
 	inlinedUsed map[string]bool
 	havocAllCalls map[string]bool
 	bv        bool
+	refLeaf   map[string]int  // heap array name -> levels (1: Array Int Int, 2: Array Int (Array Int Int)) holding references
+	refDone   map[string]bool
+	epochHwm  map[int]Term    // allocation mark at the creation of each heap epoch
+	leafInfo  map[string]leafReg
 }
 
 func NewEnc(db *ContractDB, prog *ssa.Program, pkg *ssa.Package) *Enc {
-	return &Enc{decls: map[string]string{}, funs: map[string]string{}, axiomSet: map[string]bool{}, strConsts: map[string]int{}, typeIDs: map[string]int{}, usedSpecs: map[string]bool{}, db: db, prog: prog, pkg: pkg, assumedUsed: map[string]bool{}, inlinedUsed: map[string]bool{}, havocAllCalls: map[string]bool{}}
+	return &Enc{decls: map[string]string{}, funs: map[string]string{}, axiomSet: map[string]bool{}, strConsts: map[string]int{}, typeIDs: map[string]int{}, usedSpecs: map[string]bool{}, db: db, prog: prog, pkg: pkg, assumedUsed: map[string]bool{}, inlinedUsed: map[string]bool{}, havocAllCalls: map[string]bool{}, refLeaf: map[string]int{}, refDone: map[string]bool{}, epochHwm: map[int]Term{}, leafInfo: map[string]leafReg{}}
 }
 
 func (e *Enc) declare(name, sort string) Term {
@@ -167,6 +171,7 @@ type State struct {
 	decr   map[*ssa.BasicBlock]Term
 	rangePos map[ssa.Value]Term // Range instr -> current position
 	promoted map[ssa.Value]Term // local cells whose address escaped: now heap objects
+	inAxiom bool
 	dead   bool
 	trace  []string
 }
@@ -285,7 +290,91 @@ func (s *State) heapArr(name, sort string) Term {
 	}
 	t := s.enc.declare(fmt.Sprintf("%s@e%d", sanitizeHeap(name), ep), sort)
 	s.heap[name] = t
+	// well-typed memory: every reference stored in this (unknown) heap version is below the
+	// allocation mark of the moment the version came into being
+	if lv, isRef := s.enc.refLeaf[name]; isRef {
+		if h, ok := s.enc.epochHwm[ep]; ok {
+			s.enc.addAxiom(rangeAxiom(t, lv, sort, "0", "", h.S))
+		}
+	}
+	// well-typed memory: slice/string headers and sized integers in this heap version are in range
+	if li, ok := s.enc.leafInfo[name]; ok && !s.inAxiom {
+		switch {
+		case li.lo != "" || li.hi != "":
+			s.enc.addAxiom(rangeAxiom(t, li.levels, sort, li.lo, li.hi, ""))
+		case strings.HasSuffix(name, ".cap") && li.levels >= 1:
+			// cap >= len
+			s.inAxiom = true
+			ln := s.heapArr(strings.TrimSuffix(name, ".cap")+".len", sort)
+			s.inAxiom = false
+			if li.levels == 1 {
+				s.enc.addAxiom(fmt.Sprintf("(forall ((x Int)) (! (<= (select %s x) (select %s x)) :pattern ((select %s x))))", ln.S, t.S, t.S))
+			} else if li.levels == 2 {
+				s.enc.addAxiom(fmt.Sprintf("(forall ((x Int) (y Int)) (! (<= (select (select %s x) y) (select (select %s x) y)) :pattern ((select (select %s x) y))))", ln.S, t.S, t.S))
+			}
+		}
+	}
 	return t
+}
+
+// rangeAxiom: forall cells of heap array t: lo <= v (<= hi) (< strictHi)
+func rangeAxiom(t Term, levels int, sort, lo, hi, strictHi string) string {
+	var sel, binder string
+	switch {
+	case levels == 1 && sort == SArr:
+		sel, binder = fmt.Sprintf("(select %s x)", t.S), "((x Int))"
+	case levels == 2 && sort == arrSort(SArr):
+		sel, binder = fmt.Sprintf("(select (select %s x) y)", t.S), "((x Int) (y Int))"
+	default:
+		return "true"
+	}
+	var cs []string
+	if lo != "" {
+		cs = append(cs, fmt.Sprintf("(<= %s %s)", IStr(lo).S, sel))
+	}
+	if hi != "" {
+		cs = append(cs, fmt.Sprintf("(<= %s %s)", sel, IStr(hi).S))
+	}
+	if strictHi != "" {
+		cs = append(cs, fmt.Sprintf("(< %s %s)", sel, strictHi))
+	}
+	body := cs[0]
+	if len(cs) > 1 {
+		body = "(and " + strings.Join(cs, " ") + ")"
+	}
+	return fmt.Sprintf("(forall %s (! %s :pattern (%s)))", binder, body, sel)
+}
+
+type leafReg struct {
+	levels int
+	lo, hi string
+}
+
+// registerRefLeaves records which heap arrays below prefix hold references (pointers, maps,
+// channels, slice backing arrays) for values of type t.
+func (e *Enc) registerRefLeaves(prefix string, t types.Type, levels int) {
+	key := fmt.Sprintf("%s|%d", prefix, levels)
+	if e.refDone[key] {
+		return
+	}
+	e.refDone[key] = true
+	for _, l := range flatten(t) {
+		name := prefix + l.Suffix
+		switch {
+		case l.Typ == refMarker:
+			e.refLeaf[name] = levels
+		case strings.HasSuffix(l.Suffix, ".len") || strings.HasSuffix(l.Suffix, ".off"):
+			e.leafInfo[name] = leafReg{levels: levels, lo: "0"}
+		case strings.HasSuffix(l.Suffix, ".cap"):
+			e.leafInfo[name] = leafReg{levels: levels}
+		case l.Typ != nil && l.Sort == SInt:
+			if lo, hi, ok := intRange(l.Typ); ok {
+				if bits, _, _ := intBits(l.Typ); bits < 64 {
+					e.leafInfo[name] = leafReg{levels: levels, lo: lo, hi: hi}
+				}
+			}
+		}
+	}
 }
 
 func sanitizeHeap(s string) string { return sanitize(s) }
@@ -308,6 +397,11 @@ func (s *State) havocPrefix(prefix string) {
 		}
 	}
 	s.prefEp[prefix] = ep
+	// whoever changed these locations may also have allocated
+	nh := s.enc.fresh("hwm", SInt)
+	s.assume(Ge(nh, s.hwm))
+	s.hwm = nh
+	s.enc.epochHwm[ep] = nh
 }
 
 func (s *State) havocAll() {
@@ -319,6 +413,7 @@ func (s *State) havocAll() {
 	nh := s.enc.fresh("hwm", SInt)
 	s.assume(Ge(nh, s.hwm))
 	s.hwm = nh
+	s.enc.epochHwm[s.epoch] = nh
 }
 
 func (s *State) alloc() Term {
@@ -449,6 +544,11 @@ func (s *State) load(p *Place) Value {
 			t := s.heapArr(p.Prefix+l.Suffix, l.Sort)
 			v.L = append(v.L, t)
 		}
+		if _, isIface := p.Typ.Underlying().(*types.Interface); isIface && isErrorSentinel(p.Prefix) {
+			// exported error sentinels of the standard library are non-nil and never reassigned
+			s.assume(Not(Eq(v.L[0], I(0))))
+			s.enc.assumedUsed["stdlib error sentinel "+p.Prefix[2:]+" is non-nil"] = true
+		}
 	}
 	s.assumeWellTyped(v)
 	s.assumeRefs(v) // well-typed memory: every stored reference is below the allocation mark
@@ -525,12 +625,14 @@ func (s *State) placeOfPtr(v Value) *Place {
 func (s *State) placeOfRef(ref Term, elem types.Type) *Place {
 	switch u := elem.Underlying().(type) {
 	case *types.Struct:
+		s.enc.registerRefLeaves("H_"+typeKey(elem), elem, 1)
 		return &Place{Kind: PHeap, Typ: elem, Prefix: "H_" + typeKey(elem), Obj: ref}
 	case *types.Array:
-		_ = u
+		s.enc.registerRefLeaves("E_"+typeKey(u.Elem()), u.Elem(), 2)
 		// pointer to array: the ref *is* the backing array id; no place for the whole array
 		return &Place{Kind: PElem, Typ: elem, Prefix: "E_" + typeKey(u.Elem()), Arr: ref, Off: I(0), Idx: I(0)}
 	default:
+		s.enc.registerRefLeaves("C_"+typeKey(elem), elem, 1)
 		return &Place{Kind: PHeap, Typ: elem, Prefix: "C_" + typeKey(elem), Obj: ref}
 	}
 }
